@@ -404,6 +404,7 @@ Proof. induction 1; [auto|]. intros s Hs. eapply strms_del_In. eauto. Qed.
 Record Closes c c' : Prop := mkCloses {
   cl_frame : Frame c c';
   cl_clientWindow : sc_clientWindow c' = sc_clientWindow c;
+  cl_initWin : sc_initWin c' = sc_initWin c;
   cl_lastID : sc_lastID c' = sc_lastID c;
   cl_highestID : sc_highestID c' = sc_highestID c;
   cl_out : out_ext quiet_out c c';
@@ -414,9 +415,10 @@ Lemma Closes_refl c : Closes c c.
 Proof. constructor; auto using Frame_refl, out_ext_refl, Dels_refl. Qed.
 Lemma Closes_trans a b c : Closes a b -> Closes b c -> Closes a c.
 Proof.
-  intros [a1 a2 a3 a4 a5 a6] [b1 b2 b3 b4 b5 b6]. constructor.
+  intros [a1 a2 a2' a3 a4 a5 a6] [b1 b2 b2' b3 b4 b5 b6]. constructor.
   - eapply Frame_trans; eassumption.
   - rewrite b2; exact a2.
+  - rewrite b2'; exact a2'.
   - rewrite b3; exact a3.
   - rewrite b4; exact a4.
   - eapply out_ext_trans; eassumption.
@@ -431,6 +433,7 @@ Proof.
   constructor.
   - apply Frame_close_stream.
   - apply sc_clientWindow_close_stream.
+  - apply sc_initWin_close_stream.
   - apply sc_lastID_close_stream.
   - apply sc_highestID_close_stream.
   - apply close_stream_out.
@@ -500,7 +503,575 @@ Lemma sl_frame_settings c fr : (sf_sid fr =? 0) = true -> sf_kind fr = KSettings
   else cont (emit c0 OSettingsAck).
 Proof. intros H K. unfold sl_frame. rewrite H, K. reflexivity. Qed.
 
+(* ---------- receiving DATA: the receive window and WINDOW_UPDATEs only ---------- *)
+
+Definition winupd_out (o : outev) : Prop := match strip o with OWinUpd _ _ => True | _ => False end.
+
+Record Recv c c' : Prop := mkRecv {
+  rv_strms : sc_strms c' = sc_strms c;
+  rv_initWin : sc_initWin c' = sc_initWin c;
+  rv_clientWindow : sc_clientWindow c' = sc_clientWindow c;
+  rv_lastID : sc_lastID c' = sc_lastID c;
+  rv_highestID : sc_highestID c' = sc_highestID c;
+  rv_readerQ : sc_readerQ c' = sc_readerQ c;
+  rv_rl_done : sc_rl_done c' = sc_rl_done c;
+  rv_sl_done : sc_sl_done c' = sc_sl_done c;
+  rv_wl_dead : sc_wl_dead c' = sc_wl_dead c;
+  rv_closing : sc_closing c' = sc_closing c;
+  rv_out : out_ext winupd_out c c'
+}.
+
+Lemma Recv_refl c : Recv c c.
+Proof. constructor; auto using out_ext_refl. Qed.
+Lemma Recv_DD c c' : DD c c' -> Recv c c'.
+Proof. intros (d & i & p & n & ->). constructor; try reflexivity. apply out_ext_same. reflexivity. Qed.
+Lemma Recv_upd_currentWindow c w : Recv c (upd_currentWindow c w).
+Proof. constructor; try reflexivity. apply out_ext_same. reflexivity. Qed.
+Lemma Recv_write_window_update c sid inc : Recv c (write_window_update c sid inc).
+Proof.
+  unfold write_window_update. constructor;
+    rewrite ?sc_strms_emit, ?sc_initWin_emit, ?sc_clientWindow_emit, ?sc_lastID_emit, ?sc_highestID_emit,
+      ?sc_readerQ_emit, ?sc_rl_done_emit, ?sc_sl_done_emit, ?sc_wl_dead_emit, ?sc_closing_emit; try reflexivity.
+  apply out_ext_emit; exact I.
+Qed.
+Lemma Recv_trans a b c : Recv a b -> Recv b c -> Recv a c.
+Proof.
+  intros [a1 a2 a3 a4 a5 a6 a7 a8 a9 a10 a11] [b1 b2 b3 b4 b5 b6 b7 b8 b9 b10 b11]. constructor.
+  - rewrite b1; exact a1.
+  - rewrite b2; exact a2.
+  - rewrite b3; exact a3.
+  - rewrite b4; exact a4.
+  - rewrite b5; exact a5.
+  - rewrite b6; exact a6.
+  - rewrite b7; exact a7.
+  - rewrite b8; exact a8.
+  - rewrite b9; exact a9.
+  - rewrite b10; exact a10.
+  - eapply out_ext_trans; eassumption.
+Qed.
+Lemma Recv_credit c n : Recv c (credit_conn_window cfg c n).
+Proof.
+  unfold credit_conn_window. destruct (n <=? 0)%Z; [apply Recv_refl|].
+  match goal with |- context [if ?b then _ else _] => destruct b end.
+  - eapply Recv_trans; [apply Recv_upd_currentWindow | apply Recv_write_window_update].
+  - apply Recv_upd_currentWindow.
+Qed.
+Lemma Recv_consume c s fr n : Recv c (consume_recv_window cfg c s fr n).
+Proof.
+  unfold consume_recv_window. destruct (n <=? 0)%Z; [apply Recv_refl|].
+  destruct (flag_has (sf_flags fr) FL_ES); [apply Recv_credit|].
+  eapply Recv_trans; [apply Recv_write_window_update | apply Recv_credit].
+Qed.
+
+Lemma handle_frame_Recv c s fr : Recv c (fst (fst (handle_frame dec_field cfg c s fr))).
+Proof.
+  destruct (fkind_eqb (sf_kind fr) KData) eqn:K.
+  - assert (K' : sf_kind fr = KData) by (destruct (sf_kind fr); try discriminate; reflexivity).
+    pose proof (handle_frame_data c s fr K') as D. cbv zeta in D. destruct (data_accepts s).
+    + rewrite D. match goal with |- context [if ?b then _ else _] => destruct b end; cbn [fst];
+        [apply Recv_credit | apply Recv_consume].
+    + destruct D as (code & _ & ->). apply Recv_refl.
+  - apply Recv_DD. apply (handle_frame_eff c s fr). intro K'. rewrite K' in K. discriminate.
+Qed.
+
+(* ---------- the stream loop's frame arm, leaf by leaf ---------- *)
+
+Definition new_strm c (fr : sframe) : stream :=
+  set_orig_started (new_stream (sf_sid fr) (sc_initWin c)) (sf_kind fr) (sc_now c).
+
+(* where the stream a frame is handled on comes from: the table, or it is opened by this HEADERS frame *)
+Inductive Origin c (fr : sframe) : sconn -> stream -> Prop :=
+| Or_found s : sf_sid fr <= sc_lastID c -> strms_search (sc_strms c) (sf_sid fr) = Some s -> Origin c fr c s
+| Or_created : sf_kind fr = KHeaders ->
+    (if sf_sid fr <=? sc_lastID c then strms_search (sc_strms c) (sf_sid fr) else None) = None ->
+    sc_highestID c < sf_sid fr -> sc_lastID c <= sf_sid fr ->
+    Origin c fr (upd_open (upd_strms (upd_lastID (upd_highestID c (sf_sid fr)) (sf_sid fr)) (sc_strms c ++ [new_strm c fr]))
+                          (sc_open c + 1)) (new_strm c fr).
+
+(* handleFrame went through, or failed with a stream error: the connection and the stream afterFrame gets *)
+Definition HFok c2 (s : stream) (fr : sframe) cX (sX : stream) : Prop :=
+  let '(c3, s3, e) := handle_frame dec_field cfg c2 s fr in
+  match e with
+  | None => cX = c3 /\ sX = s3
+  | Some (EReset code) => cX = write_reset c3 (st_id s3) code /\ sX = set_state (set_state (set_weReset s3) SClosed) SClosed
+  | Some (EGoAway code) => code = c_NoError /\ cX = write_goaway c3 (st_id s3) code /\ sX = set_state (set_state s3 SClosed) SClosed
+  | Some EPanic => False
+  end.
+
+Inductive SLF c (fr : sframe) : sconn -> Prop :=
+| SLF_quiet c' : Quiet c c' ->
+    (sf_kind fr = KData -> sf_sid fr <> 0 -> sc_closing c' = true \/ sc_sl_done c' = true) ->
+    (sf_sid fr = 0 -> sf_kind fr = KSettings -> sf_set_haswin fr = false) -> SLF c fr c'
+| SLF_dead c' : Frame c c' -> out_ext quiet_out c c' -> sc_sl_done c' = true -> SLF c fr c'
+| SLF_settings : sf_sid fr = 0 -> sf_kind fr = KSettings -> sf_set_haswin fr = true ->
+    let c0 := settings_c0 c fr in
+    let newInit := signed 32 (sf_set_win fr) in
+    let delta := (newInit - sc_initWin c)%Z in
+    Forall (fun s => (st_window s + delta <= MAXWIN)%Z) (sc_strms c) ->
+    SLF c fr (flush_streams (emit (upd_strms (upd_initWin c0 newInit) (map (bump delta) (sc_strms c))) OSettingsAck))
+| SLF_winupd : sf_sid fr = 0 -> sf_kind fr = KWinUpd -> (sc_clientWindow c + Z.of_N (sf_inc fr) <= MAXWIN)%Z ->
+    SLF c fr (flush_streams (upd_clientWindow c (sc_clientWindow c + Z.of_N (sf_inc fr))))
+| SLF_credit : sf_sid fr <> 0 -> sf_kind fr = KData ->
+    SLF c fr (credit_conn_window cfg c (Z.of_N (sf_len fr)))
+| SLF_prev c1 s p : sf_sid fr <> 0 -> Origin c fr c1 s -> sf_kind fr = KHeaders -> In p (sc_strms c1) ->
+    SLF c fr (put (write_goaway c1 (st_id p) c_ProtocolError) (set_state p SClosed))
+| SLF_after c1 s c2 cX sX : sf_sid fr <> 0 -> Origin c fr c1 s -> Closes c1 c2 -> HFok c2 s fr cX sX ->
+    SLF c fr (fst (after_frame cfg cX sX fr (sc_closing c))).
+
+Ltac qs :=
+  lazymatch goal with
+  | |- Quiet _ (fst (cont ?x)) => change (fst (cont x)) with x; qs
+  | |- Quiet _ (write_goaway _ _ _) => eapply Quiet_trans; [|apply Quiet_write_goaway]; qs
+  | |- Quiet _ (write_reset _ _ _) => eapply Quiet_trans; [|apply Quiet_write_reset]; qs
+  | |- Quiet _ (mark_closed _ _ _) => eapply Quiet_trans; [|apply Quiet_mark_closed]; qs
+  | |- Quiet _ (fst (brk _)) => eapply Quiet_trans; [|apply Quiet_brk]; qs
+  | |- Quiet _ (fst (write_error _ _ _)) => eapply Quiet_trans; [|apply Quiet_write_error]; qs
+  | |- Quiet _ (upd_enc _ _) => eapply Quiet_trans; [|apply Quiet_upd_enc]; qs
+  | |- Quiet _ (upd_highestID _ _) => eapply Quiet_trans; [|apply Quiet_upd_highestID; sc_cbn; flia]; qs
+  | |- Quiet _ (emit _ OSettingsAck) => eapply Quiet_trans; [|apply Quiet_emit; exact I]; qs
+  | |- Quiet _ (fst (discard_or_break _)) => apply discard_or_break_Quiet; qs
+  | |- Quiet _ (fst (discard_header_block _ _ _ _)) => eapply Quiet_trans; [|apply DD_Quiet, discard_header_block_DD]; qs
+  | |- Quiet ?a ?b => constr_eq a b; apply Quiet_refl
+  end.
+
+Ltac fs :=
+  lazymatch goal with
+  | |- Frame _ (fst (cont ?x)) => change (fst (cont x)) with x; fs
+  | |- Frame _ (upd_clientWindow _ _) => eapply Frame_trans; [|apply Frame_upd_clientWindow]; fs
+  | |- Frame _ (upd_strms _ _) => eapply Frame_trans; [|apply Frame_upd_strms]; fs
+  | |- Frame _ (upd_initWin _ _) => eapply Frame_trans; [|apply Frame_upd_initWin]; fs
+  | |- Frame _ (upd_enc _ _) => eapply Frame_trans; [|apply Frame_upd_enc]; fs
+  | |- Frame _ (upd_open _ _) => eapply Frame_trans; [|apply Frame_upd_open]; fs
+  | |- Frame _ (put _ _) => eapply Frame_trans; [|apply Frame_put]; fs
+  | |- Frame _ (upd_lastID _ _) => eapply Frame_trans; [|apply Frame_upd_lastID; sc_cbn; flia]; fs
+  | |- Frame _ (upd_highestID _ _) => eapply Frame_trans; [|apply Frame_upd_highestID; sc_cbn; flia]; fs
+  | |- Frame _ (write_goaway _ _ _) => eapply Frame_trans; [|apply Quiet_Frame, Quiet_write_goaway]; fs
+  | |- Frame _ (write_reset _ _ _) => eapply Frame_trans; [|apply Quiet_Frame, Quiet_write_reset]; fs
+  | |- Frame _ (fst (brk _)) => eapply Frame_trans; [|apply Quiet_Frame, Quiet_brk]; fs
+  | |- Frame _ (note _ _) => eapply Frame_trans; [|apply Frame_note]; fs
+  | |- Frame _ (emit _ _) => eapply Frame_trans; [|apply Frame_emit]; fs
+  | |- Frame _ (settings_c0 _ _) => unfold settings_c0; match goal with |- context [if ?b then _ else _] => destruct b end; fs
+  | |- Frame ?a ?b => constr_eq a b; apply Frame_refl
+  end.
+
+Ltac os :=
+  lazymatch goal with
+  | |- out_ext _ _ (fst (cont ?x)) => change (fst (cont x)) with x; os
+  | |- out_ext ?P ?a (upd_clientWindow ?x _) => apply (out_ext_trans P a x); [|apply out_ext_same; reflexivity]; os
+  | |- out_ext ?P ?a (upd_strms ?x _) => apply (out_ext_trans P a x); [|apply out_ext_same; reflexivity]; os
+  | |- out_ext ?P ?a (upd_initWin ?x _) => apply (out_ext_trans P a x); [|apply out_ext_same; reflexivity]; os
+  | |- out_ext ?P ?a (upd_enc ?x _) => apply (out_ext_trans P a x); [|apply out_ext_same; reflexivity]; os
+  | |- out_ext ?P ?a (upd_open ?x _) => apply (out_ext_trans P a x); [|apply out_ext_same; reflexivity]; os
+  | |- out_ext ?P ?a (upd_lastID ?x _) => apply (out_ext_trans P a x); [|apply out_ext_same; reflexivity]; os
+  | |- out_ext ?P ?a (upd_highestID ?x _) => apply (out_ext_trans P a x); [|apply out_ext_same; reflexivity]; os
+  | |- out_ext ?P ?a (put ?x _) => apply (out_ext_trans P a x); [|apply out_ext_same; reflexivity]; os
+  | |- out_ext _ _ (write_goaway _ _ _) => eapply out_ext_trans; [|apply q_out, Quiet_write_goaway]; os
+  | |- out_ext _ _ (write_reset _ _ _) => eapply out_ext_trans; [|apply q_out, Quiet_write_reset]; os
+  | |- out_ext _ _ (fst (brk _)) => eapply out_ext_trans; [|apply q_out, Quiet_brk]; os
+  | |- out_ext _ _ (note _ (OPanic _ _)) => eapply out_ext_trans; [|apply out_ext_note; exact I]; os
+  | |- out_ext _ _ (settings_c0 _ _) => unfold settings_c0; match goal with |- context [if ?b then _ else _] => destruct b end; os
+  | |- out_ext _ ?a ?b => constr_eq a b; apply out_ext_refl
+  end.
+
+Lemma Origin_Frame c fr c1 s : Origin c fr c1 s -> Frame c c1 /\ out_ext quiet_out c c1.
+Proof.
+  destruct 1; [split; [apply Frame_refl | apply out_ext_refl]|]. split; [fs | os].
+Qed.
+
+Lemma get_previous_headers_In l p : get_previous_headers l = Some p -> In p l.
+Proof.
+  unfold get_previous_headers. intro H.
+  destruct (filter (fun s => fkind_eqb (st_orig s) KHeaders) (rev l)) as [|a [|b t]] eqn:F; try discriminate.
+  inversion H; subst. assert (I : In p (filter (fun s => fkind_eqb (st_orig s) KHeaders) (rev l))) by (rewrite F; right; left; reflexivity).
+  apply filter_In in I. destruct I as [I _]. apply in_rev. assumption.
+Qed.
+
+(* a connection error (or a decoder panic) out of handleFrame leaves everything but the decoder alone *)
+Lemma handle_frame_fatal c s fr c3 s3 e : handle_frame dec_field cfg c s fr = (c3, s3, Some e) ->
+  match e with EReset _ => False | _ => True end -> DD c c3.
+Proof.
+  intros HF He. destruct (fkind_eqb (sf_kind fr) KData) eqn:K.
+  - assert (K' : sf_kind fr = KData) by (destruct (sf_kind fr); try discriminate; reflexivity).
+    pose proof (handle_frame_data c s fr K') as D. cbv zeta in D. destruct (data_accepts s).
+    + rewrite D in HF. destruct (_ && _)%bool in HF; inversion HF; subst; contradiction.
+    + destruct D as (code & _ & D). rewrite D in HF. inversion HF; subst. apply DD_refl.
+  - pose proof (handle_frame_eff c s fr) as (_ & _ & D). rewrite HF in D. cbn [fst] in D. apply D.
+    intro K'. rewrite K' in K. discriminate.
+Qed.
+
+Definition sl_tail (fr : sframe) (wasClosing : bool) c1 (s : stream) : sconn * bool :=
+      (* HEADERS prelude *)
+      let pre2 : (sconn * bool) + sconn :=
+        if fkind_eqb (sf_kind fr) KHeaders then
+          match get_previous_headers (sc_strms c1) with
+          | Some p =>
+            if negb (st_headersFinished p) then
+              let '(c2, p') := write_error c1 (Some p) (EGoAway c_ProtocolError) in
+              inl (cont (match p' with Some p' => put c2 p' | None => c2 end))
+            else inr (implicit_close (S (length (sc_strms c1))) c1 (st_id s))
+          | None => inr (implicit_close (S (length (sc_strms c1))) c1 (st_id s))
+          end
+        else inr c1 in
+      match pre2 with
+      | inl r => r
+      | inr c2 =>
+        let '(c3, s3, e) := handle_frame dec_field cfg c2 s fr in
+        match e with
+        | Some e =>
+          let '(c4, s4) := write_error c3 (Some s3) e in
+          let s5 := match s4 with Some x => set_state x SClosed | None => set_state s3 SClosed end in
+          match e with
+          | EGoAway code => if negb (code =? c_NoError) then brk (put c4 s5) else after_frame cfg c4 s5 fr wasClosing
+          | EReset _ => after_frame cfg c4 s5 fr wasClosing
+          | EPanic => brk (note c3 (OPanic 1 0))
+          end
+        | None => after_frame cfg c3 s3 fr wasClosing
+        end
+      end.
+
+Definition sl_pre c (fr : sframe) : (sconn * bool) + (sconn * stream) :=
+    let wasClosing := sc_closing c in
+    let found := if sf_sid fr <=? sc_lastID c then strms_search (sc_strms c) (sf_sid fr) else None in
+      match found with
+      | Some s => inr (c, s)
+      | None =>
+        if fkind_eqb (sf_kind fr) KRst then
+          if (sc_lastID c <? sf_sid fr) && (sc_highestID c <? sf_sid fr)
+          then inl (cont (write_goaway c (sf_sid fr) c_ProtocolError)) else inl (cont c)
+        else if in_ring c (sf_sid fr) then
+          let weReset := match ring_find c (sf_sid fr) with Some b => b | None => false end in
+          match sf_kind fr with
+          | KPriority | KWinUpd | KRst => inl (cont c)
+          | KData =>
+            if weReset then inl (cont (credit_conn_window cfg c (Z.of_N (sf_len fr))))
+            else inl (cont (write_goaway c (sf_sid fr) c_StreamClosedError))
+          | KHeaders =>
+            if weReset then inl (discard_or_break (discard_header_block dec_field cfg c fr))
+            else inl (cont (write_goaway c (sf_sid fr) c_StreamClosedError))
+          | _ => inl (cont (write_goaway c (sf_sid fr) c_StreamClosedError))
+          end
+        else if fkind_eqb (sf_kind fr) KPriority then
+          if sf_dep fr =? sf_sid fr then inl (cont (write_reset c (sf_sid fr) c_ProtocolError)) else inl (cont c)
+        else if fkind_eqb (sf_kind fr) KHeaders && (sf_sid fr <=? sc_highestID c) then
+          inl (cont (write_goaway c (sf_sid fr) c_ProtocolError))
+        else
+        let c := if fkind_eqb (sf_kind fr) KHeaders then upd_highestID c (sf_sid fr) else c in
+        if fkind_eqb (sf_kind fr) KHeaders && ((cf_maxStreams cfg <=? sc_open c)%Z || wasClosing) then
+          let c1 := mark_closed (write_reset c (sf_sid fr) c_RefusedStreamError) (sf_sid fr) true in
+          inl (discard_or_break (discard_header_block dec_field cfg c1 fr))
+        else if sf_sid fr <? sc_lastID c then inl (cont (write_goaway c (sf_sid fr) c_ProtocolError))
+        else
+          if fkind_eqb (sf_kind fr) KHeaders && sc_closing c then
+            let c1 := mark_closed (write_reset c (sf_sid fr) c_RefusedStreamError) (sf_sid fr) true in
+            inl (discard_or_break (discard_header_block dec_field cfg c1 fr))
+          else
+            let c1 := if fkind_eqb (sf_kind fr) KHeaders then upd_lastID c (sf_sid fr) else c in
+            let s := set_orig_started (new_stream (sf_sid fr) (sc_initWin c1)) (sf_kind fr) (sc_now c1) in
+            let c2 := upd_strms c1 (sc_strms c1 ++ [s]) in
+            let c3 := if fkind_eqb (sf_kind fr) KHeaders then upd_open c2 (sc_open c2 + 1) else c2 in
+            inr (c3, s)
+      end.
+
+Lemma sl_frame_stream c fr : (sf_sid fr =? 0) = false ->
+  fkind_eqb (sf_kind fr) KCont && negb (sc_discardID c =? 0) && (sf_sid fr =? sc_discardID c) = false ->
+  sl_frame dec_field enc_set_max cfg c fr =
+  match sl_pre c fr with inl r => r | inr (c1, s) => sl_tail fr (sc_closing c) c1 s end.
+Proof. intros H1 H2. unfold sl_frame. rewrite H1, H2. reflexivity. Qed.
+
+Ltac p3 := first [ (intros E0; exfalso; flia) | (intros _ K0; congruence) | (intros _ _; assumption) ].
+
+Lemma fkind_eqb_eq a b : fkind_eqb a b = true <-> a = b.
+Proof. destruct a, b; cbn; split; intro H; try reflexivity; try discriminate. Qed.
+
+Lemma sl_tail_SLF c fr c1 s : sf_sid fr <> 0 ->
+  Origin c fr c1 s \/
+  (sf_kind fr <> KHeaders /\ sf_kind fr <> KPriority /\ st_state s = SIdle /\ Frame c c1 /\ out_ext quiet_out c c1) ->
+  SLF c fr (fst (sl_tail fr (sc_closing c) c1 s)).
+Proof.
+  intros NZ HO.
+  assert (FO : Frame c c1 /\ out_ext quiet_out c c1).
+  { destruct HO as [HO|(_ & _ & _ & A & B)]; [eapply Origin_Frame; eassumption | auto]. }
+  destruct FO as [FO OO].
+  unfold sl_tail.
+  (* the HEADERS prelude *)
+  assert (P2 : (exists p, sf_kind fr = KHeaders /\ In p (sc_strms c1) /\
+                  SLF c fr (put (write_goaway c1 (st_id p) c_ProtocolError) (set_state p SClosed)) /\
+                  (if fkind_eqb (sf_kind fr) KHeaders then
+                     match get_previous_headers (sc_strms c1) with
+                     | Some p =>
+                       if negb (st_headersFinished p) then
+                         let '(c2, p') := write_error c1 (Some p) (EGoAway c_ProtocolError) in
+                         inl (cont (match p' with Some p' => put c2 p' | None => c2 end))
+                       else inr (implicit_close (S (length (sc_strms c1))) c1 (st_id s))
+                     | None => inr (implicit_close (S (length (sc_strms c1))) c1 (st_id s))
+                     end
+                   else inr c1) = inl (cont (put (write_goaway c1 (st_id p) c_ProtocolError) (set_state p SClosed))))
+               \/
+               (exists c2, Closes c1 c2 /\
+                  (if fkind_eqb (sf_kind fr) KHeaders then
+                     match get_previous_headers (sc_strms c1) with
+                     | Some p =>
+                       if negb (st_headersFinished p) then
+                         let '(c2, p') := write_error c1 (Some p) (EGoAway c_ProtocolError) in
+                         inl (cont (match p' with Some p' => put c2 p' | None => c2 end))
+                       else inr (implicit_close (S (length (sc_strms c1))) c1 (st_id s))
+                     | None => inr (implicit_close (S (length (sc_strms c1))) c1 (st_id s))
+                     end
+                   else inr c1) = inr c2)).
+  { destruct (fkind_eqb (sf_kind fr) KHeaders) eqn:KH.
+    - apply fkind_eqb_eq in KH.
+      destruct (get_previous_headers (sc_strms c1)) as [p|] eqn:GP.
+      + destruct (negb (st_headersFinished p)).
+        * left. exists p. apply get_previous_headers_In in GP.
+          split; [assumption|]. split; [assumption|]. split; [|reflexivity].
+          destruct HO as [HO|(NH & _)]; [|contradiction]. eapply SLF_prev; eassumption.
+        * right. eexists. split; [apply implicit_close_Closes | reflexivity].
+      + right. eexists. split; [apply implicit_close_Closes | reflexivity].
+    - right. exists c1. split; [apply Closes_refl | reflexivity]. }
+  destruct P2 as [(p & KH & Hp & HS & ->) | (c2 & CL & ->)]; [exact HS|].
+  destruct (handle_frame dec_field cfg c2 s fr) as [[c3 s3] e] eqn:HF.
+  assert (F2 : Frame c c2) by (eapply Frame_trans; [exact FO | apply CL]).
+  assert (O2 : out_ext quiet_out c c2) by (eapply out_ext_trans; [exact OO | apply CL]).
+  destruct e as [e|].
+  - destruct e as [code|code|].
+    + (* connection error *)
+      pose proof (handle_frame_fatal _ _ _ _ _ _ HF I) as D.
+      cbn [write_error]. destruct (negb (code =? c_NoError)) eqn:NE.
+      * apply SLF_dead; [| |reflexivity].
+        -- eapply Frame_trans; [exact F2|]. eapply Frame_trans; [apply Quiet_Frame, DD_Quiet, D|]. fs.
+        -- eapply out_ext_trans; [exact O2|]. eapply out_ext_trans; [apply q_out, DD_Quiet, D|]. os.
+      * destruct HO as [HO|(NH & NP & SI & _)].
+        -- eapply SLF_after; [exact NZ | exact HO | exact CL|]. unfold HFok. rewrite HF. repeat split. flia.
+        -- (* a stream made by a frame that cannot open one: handleFrame fails with PROTOCOL_ERROR *)
+           exfalso. unfold handle_frame, verify_state in HF. rewrite SI in HF.
+           destruct (sf_kind fr); try contradiction; cbn in HF; inversion HF; subst; discriminate.
+    + (* stream error *)
+      destruct HO as [HO|(NH & NP & SI & _)].
+      * cbn [write_error]. eapply SLF_after; [exact NZ | exact HO | exact CL|]. unfold HFok. rewrite HF. repeat split.
+      * exfalso. unfold handle_frame, verify_state in HF. rewrite SI in HF.
+        destruct (sf_kind fr); try contradiction; cbn in HF; inversion HF.
+    + (* panic *)
+      pose proof (handle_frame_fatal _ _ _ _ _ _ HF I) as D. cbn [write_error].
+      apply SLF_dead; [| |reflexivity].
+      * eapply Frame_trans; [exact F2|]. eapply Frame_trans; [apply Quiet_Frame, DD_Quiet, D|]. fs.
+      * eapply out_ext_trans; [exact O2|]. eapply out_ext_trans; [apply q_out, DD_Quiet, D|]. os.
+  - destruct HO as [HO|(NH & NP & SI & _)].
+    + eapply SLF_after; [exact NZ | exact HO | exact CL|]. unfold HFok. rewrite HF. split; reflexivity.
+    + exfalso. unfold handle_frame, verify_state in HF. rewrite SI in HF.
+      destruct (sf_kind fr); try contradiction; cbn in HF; inversion HF.
+Qed.
+
+Theorem sl_frame_SLF c fr : SLF c fr (fst (sl_frame dec_field enc_set_max cfg c fr)).
+Proof.
+  destruct (sf_sid fr =? 0) eqn:Z0.
+  - (* connection-level frames *)
+    destruct (sf_kind fr) eqn:K.
+    5:{ (* SETTINGS *)
+      rewrite sl_frame_settings by assumption. cbv zeta.
+      destruct (sf_set_haswin fr) eqn:HW.
+      - destruct (bumpall _ [] _) as [l' over] eqn:B. destruct over.
+        + apply SLF_dead; [fs | os | reflexivity].
+        + apply bumpall_false in B. destruct B as [-> F]. cbn [app fst cont].
+          replace (sc_strms (upd_initWin (settings_c0 c fr) (signed 32 (sf_set_win fr)))) with (sc_strms c) in *
+            by (unfold settings_c0; destruct (sf_set_hastable fr); reflexivity).
+          replace (sc_initWin (settings_c0 c fr)) with (sc_initWin c) in *
+            by (unfold settings_c0; destruct (sf_set_hastable fr); reflexivity).
+          apply SLF_settings; try assumption. flia.
+      - apply SLF_quiet; [|congruence|p3]. cbn [fst cont]. unfold settings_c0. destruct (sf_set_hastable fr); qs.
+    }
+    all: unfold sl_frame; rewrite Z0, K.
+    all: try (apply SLF_quiet; [qs | first [congruence | (intros _ H; exfalso; apply H; flia)] | p3]).
+    (* WINDOW_UPDATE on the connection *)
+    destruct (MAXWIN <? sc_clientWindow c + Z.of_N (sf_inc fr))%Z eqn:E.
+    + apply SLF_dead; [fs | os | reflexivity].
+    + apply SLF_winupd; [flia | assumption | flia].
+  - (* stream frames *)
+    assert (NZ : sf_sid fr <> 0) by flia.
+    destruct (fkind_eqb (sf_kind fr) KCont && negb (sc_discardID c =? 0) && (sf_sid fr =? sc_discardID c)) eqn:DC.
+    + unfold sl_frame. rewrite Z0, DC. apply SLF_quiet; [qs| |p3]. intros K. rewrite K in DC. discriminate.
+    + rewrite sl_frame_stream by assumption. unfold sl_pre. cbv zeta.
+      assert (QD : forall c' code, sf_kind fr = KData -> sf_sid fr <> 0 ->
+                     sc_closing (fst (cont (write_goaway c' (sf_sid fr) code))) = true \/
+                     sc_sl_done (fst (cont (write_goaway c' (sf_sid fr) code))) = true).
+      { intros. left. apply sc_closing_write_goaway. }
+      destruct (if sf_sid fr <=? sc_lastID c then strms_search (sc_strms c) (sf_sid fr) else None) as [s|] eqn:FD.
+      { destruct (sf_sid fr <=? sc_lastID c) eqn:LE; [|discriminate].
+        apply sl_tail_SLF; [exact NZ|]. left. apply Or_found; [flia | assumption]. }
+      destruct (fkind_eqb (sf_kind fr) KRst) eqn:KR.
+      { apply fkind_eqb_eq in KR.
+        destruct ((sc_lastID c <? sf_sid fr) && (sc_highestID c <? sf_sid fr)); (apply SLF_quiet; [qs | congruence | p3]). }
+      destruct (in_ring c (sf_sid fr)) eqn:IR.
+      { destruct (sf_kind fr) eqn:K;
+          try (apply SLF_quiet; [qs | first [congruence | (intros _ _; left; apply sc_closing_write_goaway)] | p3]).
+        - destruct (match ring_find c (sf_sid fr) with Some b => b | None => false end).
+          + apply SLF_credit; [exact NZ | exact K].
+          + apply SLF_quiet; [qs | (intros _ _; left; apply sc_closing_write_goaway) | p3].
+        - destruct (match ring_find c (sf_sid fr) with Some b => b | None => false end);
+            (apply SLF_quiet; [qs | congruence | p3]). }
+      destruct (fkind_eqb (sf_kind fr) KPriority) eqn:KP.
+      { apply fkind_eqb_eq in KP. destruct (sf_dep fr =? sf_sid fr); (apply SLF_quiet; [qs | congruence | p3]). }
+      destruct (fkind_eqb (sf_kind fr) KHeaders) eqn:KH; cbn [andb].
+      * (* HEADERS on a stream that is not there *)
+        apply fkind_eqb_eq in KH.
+        destruct (sf_sid fr <=? sc_highestID c) eqn:HI; [apply SLF_quiet; [qs | congruence | p3]|].
+        sc_cbn.
+        destruct ((cf_maxStreams cfg <=? sc_open c)%Z || sc_closing c); [apply SLF_quiet; [qs | congruence | p3]|].
+        destruct (sf_sid fr <? sc_lastID c) eqn:LT; [apply SLF_quiet; [qs | congruence | p3]|].
+        destruct (sc_closing c) eqn:CLO; [apply SLF_quiet; [qs | congruence | p3]|].
+        pose proof (Or_created c fr KH FD) as OC. unfold new_strm in OC.
+        match goal with |- SLF c fr (fst (sl_tail fr false ?c1 ?s)) => pose proof (sl_tail_SLF c fr c1 s NZ) as T end.
+        rewrite CLO in T. apply T. left. apply OC; flia.
+      * (* another frame on a stream that is not there *)
+        destruct (sf_sid fr <? sc_lastID c) eqn:LT; [apply SLF_quiet; [qs | (intros _ _; left; apply sc_closing_write_goaway) | p3]|].
+        apply sl_tail_SLF; [exact NZ|]. right.
+        split; [intro E; rewrite E in KH; discriminate|].
+        split; [intro E; rewrite E in KP; discriminate|].
+        split; [reflexivity|]. split; [fs | os].
+Qed.
 End Eff.
 
 Arguments out_ext {hstate}. Arguments Quiet {hstate}. Arguments Frame {hstate}. Arguments DD {hstate}.
 Arguments Closes {hstate}. Arguments settings_c0 {hstate}.
+Arguments Origin {hstate}. Arguments SLF {hstate}. Arguments HFok {hstate}. Arguments new_strm {hstate}.
+Arguments sl_tail {hstate}. Arguments sl_pre {hstate}.
+
+(* ---------- the read loop ---------- *)
+Section RL.
+Variable hstate : Type.
+Variable cfg : config.
+Notation sconn := (sconn hstate).
+Implicit Types c : sconn.
+
+(* what the read loop never touches *)
+Record RLsame c c' : Prop := mkRLsame {
+  rs_strms : sc_strms c' = sc_strms c;
+  rs_initWin : sc_initWin c' = sc_initWin c;
+  rs_clientWindow : sc_clientWindow c' = sc_clientWindow c;
+  rs_currentWindow : sc_currentWindow c' = sc_currentWindow c;
+  rs_lastID : sc_lastID c' = sc_lastID c;
+  rs_highestID : sc_highestID c' = sc_highestID c;
+  rs_sl_done : sc_sl_done c' = sc_sl_done c;
+  rs_wl_dead : sc_wl_dead c' = sc_wl_dead c;
+  rs_closing : sc_closing c = true -> sc_closing c' = true;
+  rs_out : out_ext quiet_out c c'
+}.
+
+Definition fwd_ok (fr : sframe) : Prop := sf_sid fr = 0 -> sf_kind fr = KSettings \/ sf_kind fr = KWinUpd.
+
+Ltac rs_upd :=
+  constructor; sc_cbn;
+  first [reflexivity | (intro; assumption) | (apply out_ext_same; reflexivity) | assumption].
+
+Lemma RLsame_refl c : RLsame c c. Proof. rs_upd. Qed.
+Lemma RLsame_trans a b c : RLsame a b -> RLsame b c -> RLsame a c.
+Proof.
+  intros [a1 a2 a3 a4 a5 a6 a7 a8 a9 a10] [b1 b2 b3 b4 b5 b6 b7 b8 b9 b10]. constructor.
+  - rewrite b1; exact a1.
+  - rewrite b2; exact a2.
+  - rewrite b3; exact a3.
+  - rewrite b4; exact a4.
+  - rewrite b5; exact a5.
+  - rewrite b6; exact a6.
+  - rewrite b7; exact a7.
+  - rewrite b8; exact a8.
+  - auto.
+  - eapply out_ext_trans; eassumption.
+Qed.
+Lemma RLsame_Quiet c c' : Quiet c c' -> sc_highestID c' = sc_highestID c -> sc_sl_done c' = sc_sl_done c -> RLsame c c'.
+Proof. intros [] H1 H2. constructor; assumption. Qed.
+Lemma RLsame_write_goaway c sid code : RLsame c (write_goaway c sid code).
+Proof. apply RLsame_Quiet; [apply Quiet_write_goaway | apply sc_highestID_write_goaway | apply sc_sl_done_write_goaway]. Qed.
+Lemma RLsame_emit c o : quiet_out o -> RLsame c (emit c o).
+Proof. intro H. apply RLsame_Quiet; [apply Quiet_emit; assumption | apply sc_highestID_emit | apply sc_sl_done_emit]. Qed.
+Lemma RLsame_rl_exit c why : RLsame c (rl_exit c why).
+Proof. unfold rl_exit, note. constructor; sc_cbn; first [reflexivity | (intro; assumption) | idtac]. eapply out_ext_cons; [reflexivity | exact I]. Qed.
+Lemma RLsame_upd_expectCont c n : RLsame c (upd_expectCont c n). Proof. rs_upd. Qed.
+Lemma RLsame_upd_readerQ c q : RLsame c (upd_readerQ c q). Proof. rs_upd. Qed.
+Lemma RLsame_write_error c e : RLsame c (fst (write_error c None e)).
+Proof. destruct e; cbn [write_error fst]; auto using RLsame_write_goaway, RLsame_refl. Qed.
+
+Lemma rl_step_eff c i :
+  RLsame c (rl_step cfg c i) /\
+  ((sc_readerQ (rl_step cfg c i) = sc_readerQ c /\
+    (forall fr, i = RFrame fr -> sf_kind fr = KData ->
+       sc_closing (rl_step cfg c i) = true \/ sc_sl_done (rl_step cfg c i) = true)) \/
+   (exists fr, i = RFrame fr /\ sc_readerQ (rl_step cfg c i) = sc_readerQ c ++ [fr] /\ fwd_ok fr /\
+               sc_sl_done c = false /\ sc_rl_done (rl_step cfg c i) = sc_rl_done c)).
+Proof.
+  assert (CG : forall c0 sid code why, sc_closing (rl_exit (write_goaway c0 sid code) why) = true).
+  { intros. unfold rl_exit, note. sc_cbn. apply sc_closing_write_goaway. }
+  assert (EX : forall c0 c1 why, RLsame c0 c1 -> RLsame c0 (rl_exit c1 why)).
+  { intros. eapply RLsame_trans; [eassumption | apply RLsame_rl_exit]. }
+  assert (FW : forall c1 fr, RLsame c c1 -> sc_readerQ c1 = sc_readerQ c -> sc_rl_done c1 = sc_rl_done c ->
+             (sf_sid fr = 0 -> sf_kind fr = KSettings \/ sf_kind fr = KWinUpd) ->
+             RLsame c (forward c1 fr) /\
+             ((sc_readerQ (forward c1 fr) = sc_readerQ c /\
+               (forall fr0, RFrame fr = RFrame fr0 -> sf_kind fr0 = KData ->
+                  sc_closing (forward c1 fr) = true \/ sc_sl_done (forward c1 fr) = true)) \/
+              (exists fr0, RFrame fr = RFrame fr0 /\ sc_readerQ (forward c1 fr) = sc_readerQ c ++ [fr0] /\ fwd_ok fr0 /\
+                           sc_sl_done c = false /\ sc_rl_done (forward c1 fr) = sc_rl_done c))).
+  { intros c1 fr R Q RD OK. unfold forward. destruct (sc_sl_done c1) eqn:SD.
+    - split; [apply EX; assumption|]. left. split; [unfold rl_exit, note; sc_cbn; assumption|].
+      intros _ _ _. right. unfold rl_exit, note. sc_cbn. assumption.
+    - split; [eapply RLsame_trans; [eassumption | apply RLsame_upd_readerQ]|]. right. exists fr.
+      split; [reflexivity|]. sc_cbn. rewrite Q. split; [reflexivity|]. split; [exact OK|].
+      split; [rewrite <- (rs_sl_done _ _ R); assumption | assumption]. }
+  destruct i as [fr| |code|]; cbn [rl_step].
+  - (* a frame *)
+    match goal with |- context [match ?R with inl c' => c' | inr c1 => _ end] => set (r := R) end.
+    assert (HR : match r with
+                 | inl c' => RLsame c c' /\ sc_readerQ c' = sc_readerQ c /\ sc_closing c' = true
+                 | inr c1 => RLsame c c1 /\ sc_readerQ c1 = sc_readerQ c /\ sc_rl_done c1 = sc_rl_done c
+                 end).
+    { subst r. repeat match goal with |- context [if ?b then _ else _] => destruct b end. all: try
+        first [ split; [apply EX, RLsame_write_goaway | split; [unfold rl_exit, note; sc_cbn; apply sc_readerQ_write_goaway | apply CG]]
+              | split; [apply RLsame_upd_expectCont | split; reflexivity]
+              | split; [apply RLsame_refl | split; reflexivity] ]. }
+    destruct r as [c'|c1].
+    + destruct HR as (R & Q & CL). split; [assumption|]. left. split; [assumption|]. auto.
+    + destruct HR as (R & Q & RD).
+      destruct (negb (sf_sid fr =? 0)) eqn:NZ.
+      * destruct (check_frame_with_stream fr) as [e|] eqn:CK.
+        -- split; [apply EX; eapply RLsame_trans; [eassumption | apply RLsame_write_error]|].
+           left. split; [unfold rl_exit, note; sc_cbn; rewrite sc_readerQ_write_error; assumption|].
+           intros _ _ _. left. unfold rl_exit, note. sc_cbn.
+           unfold check_frame_with_stream in CK.
+           destruct (N.land (sf_sid fr) 1 =? 0); [inversion CK; apply sc_closing_write_goaway|].
+           destruct (sf_kind fr); inversion CK; apply sc_closing_write_goaway.
+        -- apply FW; try assumption. intro. flia.
+      * destruct (sf_kind fr) eqn:K;
+          try (split; [apply EX; eapply RLsame_trans; [eassumption | apply RLsame_write_goaway]|];
+               left; split; [unfold rl_exit, note; sc_cbn; rewrite sc_readerQ_write_goaway; assumption|];
+               intros _ _ _; left; apply CG).
+        -- (* SETTINGS *)
+           destruct (negb (flag_has (sf_flags fr) FL_ES)).
+           ++ apply FW; try assumption. intro. rewrite K. auto.
+           ++ split; [assumption|]. left. split; [assumption|]. intros fr0 E K0. inversion E; subst. congruence.
+        -- (* PING *)
+           destruct (negb (flag_has (sf_flags fr) FL_ES)).
+           ++ split; [eapply RLsame_trans; [eassumption | apply RLsame_emit; exact I]|]. left.
+              split; [rewrite sc_readerQ_emit; assumption|]. intros fr0 E K0. inversion E; subst. congruence.
+           ++ split; [assumption|]. left. split; [assumption|]. intros fr0 E K0. inversion E; subst. congruence.
+        -- (* GOAWAY *)
+           split; [apply EX; assumption|]. left. split; [unfold rl_exit, note; sc_cbn; assumption|].
+           intros fr0 E K0. inversion E; subst. congruence.
+        -- (* WINDOW_UPDATE *)
+           destruct (sf_inc fr =? 0).
+           ++ split; [apply EX; eapply RLsame_trans; [eassumption | apply RLsame_write_goaway]|].
+              left; split; [unfold rl_exit, note; sc_cbn; rewrite sc_readerQ_write_goaway; assumption|].
+              intros _ _ _; left; apply CG.
+           ++ apply FW; try assumption. intro. rewrite K. auto.
+  - destruct (negb (sc_expectCont c =? 0)).
+    + split; [apply EX, RLsame_write_goaway|]. left.
+      split; [unfold rl_exit, note; sc_cbn; apply sc_readerQ_write_goaway | discriminate].
+    + split; [apply RLsame_refl|]. left. split; [reflexivity | discriminate].
+  - destruct code as [code|].
+    + split; [apply EX, RLsame_write_goaway|]. left.
+      split; [unfold rl_exit, note; sc_cbn; apply sc_readerQ_write_goaway | discriminate].
+    + split; [apply EX, RLsame_refl|]. left. split; [reflexivity | discriminate].
+  - split; [apply EX, RLsame_refl|]. left. split; [reflexivity | discriminate].
+Qed.
+End RL.
+
+Arguments RLsame {hstate}.
+Arguments Recv {hstate}.
